@@ -7,9 +7,20 @@ HERE = os.path.dirname(os.path.abspath(__file__))
 sys.path.insert(0, os.path.join(HERE, "..", "lib"))
 import verif
 
+sys.path.insert(0, os.path.join(HERE, "..", "translate"))
+import merge34                      # C05's translator: the closed theorems (C06/Instances.v) run over the C05 merge model,
+                                    # whose 3/4-way automata are regenerated from multiway_merge.hpp
 ck = verif.Check("C06")
 rng = ck.rng
-pr = ck.prove()
+translator_error = None
+try:
+    ck.regen(merge34.GENERATE)
+except RuntimeError as e:
+    translator_error = str(e)
+pr = ck.prove() if translator_error is None else None
+if translator_error is not None:
+    ck.violation("translator of the C05 merge automata failed on multiway_merge.hpp: " + translator_error[:200],
+                 {"correspondence": "translate/merge34.py (needed by coq/C06/Instances.v)"}, no_input=True)
 
 ELEMS = ["pair", "pair", "trk", "int"]
 OSS = [1, 2, 3, 10, 10]
@@ -144,6 +155,12 @@ stats = {"stable": 0, "unstable": 0, "exact": 0, "sampling": 0, "int": 0, "pair"
 tsan = None
 
 
+def san_head(text):
+    """the first sanitizer report of a log: the ERROR line and the first stack"""
+    i = text.find("ERROR: ")
+    return text[max(0, i - 80):i + 3500] if i >= 0 else text[:1500]
+
+
 def run_one(exe_, case, env):
     one = os.path.join(ck.scratch, "one.txt"); open(one, "w").write(case + "\n")
     return verif.sh([exe_, one], timeout=120, env=env)
@@ -225,7 +242,8 @@ else:
             found = True
             ck.violation("real (stable_)parallel_mergesort crashes under ASan/UBSan on a valid input" if r != 0 else
                          "real (stable_)parallel_mergesort crashed under ASan/UBSan in a batch run (not reproduced alone)",
-                         {"case": c, "log_tail": (o if r != 0 else out1)[-2500:]})
+                         {"case": c, "sanitizer_report_head": san_head(o if r != 0 else out1),
+                          "log_tail": (o if r != 0 else out1)[-1500:]})
         else:
             ck.violation("sanitizer report at exit of the harness (rc=%d) although every case printed a clean line" % rc1,
                          {"correspondence": "harness/C06/pms_harness.cpp", "log_tail": out1[-2500:]}, no_input=True)
